@@ -323,7 +323,14 @@ def coerce(v: V, t) -> V:
         return V(t, v.x)  # defaultdict viewed as a mapping (and back)
     if _compatible(v.t, t):
         return V(t, v.x)
+    for hook in COERCE_HOOKS:
+        r = hook(v, t)
+        if r is not None:
+            return r
     raise TypeError(f"cannot view {v.t} as {t}")
+
+
+COERCE_HOOKS = []   # contract files may register abstraction functions (v, t) -> V | None, e.g. a concrete graph record viewed as the abstract Graph
 
 
 def _compatible(a, b):
